@@ -1,0 +1,111 @@
+//go:build verif
+
+package rpc
+
+import (
+	"unsafe"
+
+	"github.com/basecomplextech/baselibrary/status"
+	"github.com/basecomplextech/spec/internal/vpool"
+)
+
+// vpoolGet* report a state taken from its pool with the attributes which are not fresh.
+
+func vpoolGetClient(s *channelState) {
+	var m int64
+	if s.ch != nil {
+		m |= 1
+	}
+	if s.logger != nil {
+		m |= 2
+	}
+	if len(s.method) != 0 {
+		m |= 4
+	}
+	if s.sendReq {
+		m |= 8
+	}
+	if s.sendEnd {
+		m |= 16
+	}
+	if s.recvEnd {
+		m |= 32
+	}
+	if s.recvResp {
+		m |= 64
+	}
+	if s.recvFailed {
+		m |= 128
+	}
+	if s.recvError != status.None {
+		m |= 256
+	}
+	if s.result != nil {
+		m |= 512
+	}
+	if s.resultOK {
+		m |= 1024
+	}
+	if s.resultSt != status.None {
+		m |= 2048
+	}
+	vpool.Emit("rpc.clientChannelState", unsafe.Pointer(s), false, m)
+}
+
+func vpoolGetServer(s *serverChannelState) {
+	var m int64
+	if s.ch != nil {
+		m |= 1
+	}
+	if len(s.method) != 0 {
+		m |= 4
+	}
+	if s.sendReq {
+		m |= 8
+	}
+	if s.sendEnd {
+		m |= 16
+	}
+	if s.recvEnd {
+		m |= 32
+	}
+	if !s.recvReq.IsEmpty() {
+		m |= 64
+	}
+	if s.recvFailed {
+		m |= 128
+	}
+	if s.recvError != status.None {
+		m |= 256
+	}
+	vpool.Emit("rpc.serverChannelState", unsafe.Pointer(s), false, m)
+}
+
+func vpoolGetRequest(s *requestState) {
+	var m int64
+	if s.buf.Len() != 0 {
+		m |= 1
+	}
+	if s.done {
+		m |= 2
+	}
+	if s.writer.Err() != nil {
+		m |= 4
+	}
+	if s.calls.Len() != 0 {
+		m |= 8
+	}
+	vpool.Emit("rpc.requestState", unsafe.Pointer(s), false, m)
+}
+
+func vpoolPutClient(s *channelState) {
+	vpool.Emit("rpc.clientChannelState", unsafe.Pointer(s), true, 0)
+}
+
+func vpoolPutServer(s *serverChannelState) {
+	vpool.Emit("rpc.serverChannelState", unsafe.Pointer(s), true, 0)
+}
+
+func vpoolPutRequest(s *requestState) {
+	vpool.Emit("rpc.requestState", unsafe.Pointer(s), true, 0)
+}
